@@ -22,7 +22,8 @@ RULE = ('programs from the C01/C08 families x every subset of raising callbacks 
         'consecutive execute() calls on ONE Test object, with an overlapping execute() attempted from inside a running '
         'phase; observed: callback arguments (identity), order, return value, record facts, Test.state, TEST_INSTANCES, '
         'number of handlers on the openhtf logger; races: 2-3 threads x 1-2 execute() calls each on one Test under random '
-        'schedules (switch probability 0.1/0.4/0.8), order of lock / executor-slot effects')
+        'schedules (switch probability 0.1/0.4/0.8), order of lock / executor-slot effects; abort exit path: one operator abort '
+        'at every (quick: every 6th) scheduling step of six C04 programs, same end-of-run contract')
 ASSUMPTIONS = ['time.time() is monotone while a test runs (start <= end comparisons)',
                'exits of execute() by an exception other than KeyboardInterrupt are outside "when execute() returns"']
 TRUSTED = ['harness/exec_common.py (run_history)', 'lean/OpenHTF/Driver/C09.lean']
@@ -142,15 +143,65 @@ def _run_race(case):
   return {'race': toks + facts, 'results': sorted(results)}
 
 
+def _run_abort(case):
+  """the abort exit path: one operator abort at scheduling step k of a C04 program; the record handed to the callbacks
+  must be as final as on every other path"""
+  import logging
+  from harness import sched, sched_exec
+  from harness.props import c04
+  from openhtf.core import test_descriptor
+  sched_exec.install(False)
+  test_descriptor.Test.HANDLED_SIGINT_ONCE = False
+  prog = dict(c04.PROGRAMS[case['prog']])
+  prog['callbacks'] = list(case.get('callbacks') or [False])
+  k = case['k']
+  h0 = len(logging.getLogger('openhtf').handlers)
+
+  def aborter(env):
+    s = env['sched']
+    test = env['test']
+    s.block(lambda: (s.step >= k and getattr(test, '_executor', None) is not None) or
+            ('execute-returned',) in env['log'], None, 'abort-trigger')
+    if ('execute-returned',) in env['log']:
+      return
+    test.abort_from_sig_int()
+  out = sched_exec.run_case(prog, choose=c04._chooser(case), aux=[('ab1', aborter)], max_steps=40000)
+  toks = []
+  if out['deadlock'] or out['stuck']:
+    return {'abort': ['R:deadlock']}
+  rec = out['record']
+  b = out['b']
+  if rec is None:
+    return {'abort': ['R:no-record']}
+  toks.append('O:%s' % (rec.outcome.name if rec.outcome else 'none'))
+  toks.append(ec._facts(rec, True))
+  cbr = b['cb_records']
+  toks.append('NCB:%d:%d' % (len(cbr), len(prog['callbacks'])))
+  toks.append('CBSAME:%d' % (1 if all(r is rec for r in cbr) else 0))
+  toks.append('NREC:%d' % len(out['recs']))
+  toks.append('X:ret:%d' % (1 if out['ret'] else 0))
+  toks.append('H:%d' % (len(logging.getLogger('openhtf').handlers) - h0))
+  toks.append('S:%d' % (1 if out['test'].state is None else 0))
+  toks.append('TI:%d' % (1 if len(test_descriptor.Test.TEST_INSTANCES) else 0))
+  if out['exc'] is not None:
+    toks.append('R:raised:' + type(out['exc']).__name__)
+  test_descriptor.Test.TEST_INSTANCES.clear()
+  return {'abort': toks}
+
+
 def run_real(case):
   if case.get('kind') == 'race':
     return _run_race(case)
+  if case.get('kind') == 'abort':
+    return _run_abort(case)
   return {'runs': ec.run_history(case)}
 
 
 def encode(case, obs):
   if case.get('kind') == 'race':
     return 'C09 RACE %d # %s' % (case['threads'], ' '.join(obs['race']))
+  if case.get('kind') == 'abort':
+    return 'C09 ABORT # %s' % ' '.join(obs['abort'])
   fake = {'tokens': obs['runs'][0] if obs['runs'] else []}
   head = c08.encode(case, fake).split(' # ')[0].replace('C08 ', 'C09 ', 1)
   return head + ' # ' + ' | '.join(' '.join(r) for r in obs['runs'])
@@ -159,6 +210,8 @@ def encode(case, obs):
 def classify(case, obs):
   if case.get('kind') == 'race':
     return 'race/%dthreads/%s' % (case['threads'], ','.join(obs['results']))
+  if case.get('kind') == 'abort':
+    return 'abort/%s/%s' % (case['prog'], obs['abort'][0])
   return '%druns/%dcb/%s' % (len(case['runs']), len(case.get('callbacks') or []),
                               obs['runs'][0][0] if obs['runs'] else '?')
 
@@ -203,6 +256,11 @@ def gen_cases(rng, tier):
     c['runs'] = [{'overlap': r.random() < 0.5} for _ in range(r.choice([1, 2, 3]))]
     c['src'] = 'random'
     cases.append(c)
+  from harness.props import c04
+  for name in ('line', 'group', 'nested', 'repeat', 'subtest', 'plugs'):
+    n = c04._length(name, 'thread')
+    for k in range(0, n + 2, 6 if tier == 'quick' else 1):
+      cases.append({'kind': 'abort', 'prog': name, 'k': k, 'callbacks': [False, k % 3 == 0]})
   for i in range(60 if tier == 'quick' else 1500):
     r = rng.derive('race%d' % i)
     cases.append({'kind': 'race', 'threads': r.choice([2, 2, 3]), 'reps': r.choice([1, 1, 2]), 'phases': r.choice([1, 2]),
@@ -226,7 +284,8 @@ MANIFEST = {
             'refused - with the counterexample theorem that the same program with the check outside the lock lets two '
             'executions overlap. Tie: real Test objects executed 1-3 times with an overlapping execute() attempted '
             'from inside a phase, callbacks raising in every subset; 2-3 threads racing execute() on one Test under '
-            'the cooperative scheduler (traced lock and executor slot replayed through the model).',
+            'the cooperative scheduler (traced lock and executor slot replayed through the model); the abort exit path (an '
+            'operator abort at every scheduling step) checked against the same end-of-run contract.',
     'note': 'Trusted: Lean kernel + standard axioms; harness; Lean driver. PARTIAL: record finality (outcome/end time set, '
             'start<=end, every phase record complete and inside the test interval, dut_id default, metadata name+config, '
             'no running phase) is a decidable Lean predicate evaluated on every real record, not a theorem (the model '
